@@ -26,4 +26,11 @@ def static_obligations(loader):
         bad = [dominated_by_literal_seed(c, ch) for c, ch in calls_with_paths(fn) if is_global_draw(c)]
         obs.append({"name": f"mustfail:seed-does-not-dominate-a-draw-deferred-in-a-{nm}", "kind": "mustfail", "function": "synthetic", "variant": None,
                     "result": "refuted" if bad == [None] else "proved", "backend": "ast-dominance", "seconds": 0.0, "havocked": False})
+    from pyvc.effects import is_generator_ctor, literal_seed
+    for nm, src, want_bad in (("unseeded-default_rng", "def f(self):\n    return np.random.default_rng().random(4)\n", True),
+                              ("stdlib-random-after-numpy-seed", "def f(self):\n    np.random.seed(3)\n    return random.random()\n", True)):
+        fn = ast.parse(src).body[0]
+        bad = [c for c, ch in calls_with_paths(fn) if (is_generator_ctor(c) and not literal_seed(c)) or (is_global_draw(c) and dominated_by_literal_seed(c, ch) is None)]
+        obs.append({"name": f"mustfail:{nm}-is-not-accepted", "kind": "mustfail", "function": "synthetic", "variant": None,
+                    "result": "refuted" if bool(bad) == want_bad else "proved", "backend": "ast-dominance", "seconds": 0.0, "havocked": False})
     return obs
